@@ -257,7 +257,13 @@ package channel
 //@ ghost pwPrompts int local
 //@ ghost ppPrompts int local
 //@ ghost unPrompts int local
+// scannedSSH: ghost - the buffer the failure-message scan last looked at
+//@ ghost scannedSSH []byte local
 //@ func (*Channel).authenticateSSH [C10 C11]
+//@   after call sshMessageHandler#1 set scannedSSH = b
+//@   at call! WriteAndReturn#1 assert #the-password-goes-out-only-after-what-was-read-was-searched-for-failure-messages scannedSSH == b
+//@   at call! WriteAndReturn#2 assert #the-passphrase-goes-out-only-after-what-was-read-was-searched-for-failure-messages scannedSSH == b
+//@   at return assert #success-is-reported-only-for-output-that-was-searched-for-failure-messages result != nil && result.err == nil ==> scannedSSH == result.b
 //@   after call WriteAndReturn#1 set pwWrites = pwWrites + 1
 //@   after call WriteAndReturn#2 set ppWrites = ppWrites + 1
 //@   after call Match#2 set pwPrompts = pwPrompts + (result ? 1 : 0)
